@@ -172,6 +172,9 @@ func vReach(label string)
 func vObserve(label string, v uint64)
 func vElapsedSec() uint64
 
+// vSettle lets every other goroutine run until it blocks (the clock does not advance)
+func vSettle()
+
 // vNative reports whether the harness runs natively (replay) rather than in the engine
 func vNative() bool { return false }
 
